@@ -4,6 +4,7 @@
 //   u1  seed N count                       -> "ok" the first `count` values of uniform(0, 1/N) on mt19937_64(seed)
 //   rs  seed N lin circ quat w_0..w_{N-1}  -> Resampling::resample / neff on a set with distinct columns
 //   rwp seed N lin circ quat ratio w_0..   -> ResamplingWithPrior::resample with a deterministic initialiser
+//   glik scale fail m N y P R              -> GaussianLikelihood::likelihood on a measurement model whose calls can fail
 //   sis seed N lin circ K D prior ratio u.. w.. x.. (cmd freeze valid l_0..l_{N-1}) x K
 //                                          -> the real SIS filter thread, scripted models, K steps
 //
@@ -19,6 +20,8 @@
 #include <BayesFilters/StateModel.h>
 #include <BayesFilters/MeasurementModel.h>
 #include <BayesFilters/LikelihoodModel.h>
+#include <BayesFilters/GaussianLikelihood.h>
+#include <BayesFilters/any.h>
 #include <BayesFilters/utils.h>
 #include <cmath>
 #include <limits>
@@ -202,7 +205,9 @@ struct SLik : public LikelihoodModel {
     explicit SLik(Script* s) : s_(s) {}
     std::pair<bool, VectorXd> likelihood(const MeasurementModel&, const Ref<const MatrixXd>&) override {
         ++s_->lik_calls;
-        return std::make_pair(static_cast<bool>(s_->valid[s_->step]), s_->lik[s_->step]);
+        // like the shipped GaussianLikelihood, an invalid likelihood comes with a vector of size 1
+        if (!s_->valid[s_->step]) return std::make_pair(false, VectorXd(VectorXd::Zero(1)));
+        return std::make_pair(true, s_->lik[s_->step]);
     }
     Script* s_;
 };
@@ -357,12 +362,45 @@ static std::string op_sis(Toks& t) {
     return o.str();
 }
 
+// ----------------------------------------------------------------------------- glik
+
+// measurement model whose four calls can be made to fail; innovation = predicted - measurement (column-wise)
+struct GMeas : public MeasurementModel {
+    GMeas(const MatrixXd& y, const MatrixXd& P, const MatrixXd& R, int fail) : y_(y), P_(P), R_(R), fail_(fail) {}
+    bool freeze(const Data&) override { return true; }
+    std::pair<bool, Data> measure(const Data&) const override { MatrixXd y = y_; return std::make_pair(!(fail_ & 1), Data(y)); }
+    std::pair<bool, Data> predictedMeasure(const Ref<const MatrixXd>&) const override { MatrixXd p = P_; return std::make_pair(!(fail_ & 2), Data(p)); }
+    std::pair<bool, Data> innovation(const Data& p, const Data& m) const override {
+        MatrixXd pm = any::any_cast<MatrixXd>(p), mm = any::any_cast<MatrixXd>(m);
+        MatrixXd inn = pm.colwise() - mm.col(0);
+        return std::make_pair(!(fail_ & 4), Data(inn));
+    }
+    std::pair<bool, MatrixXd> getNoiseCovarianceMatrix() const override { return std::make_pair(!(fail_ & 8), R_); }
+    MatrixXd y_, P_, R_; int fail_;
+};
+
+// glik scale fail m N y[m] P[m x N] R[m x m]
+static std::string op_glik(Toks& t) {
+    double scale = t.dbl(); int fail = (int)t.nat(); long m = t.nat(), n = t.nat();
+    MatrixXd y = t.mat(m, 1), P = t.mat(m, n), R = t.mat(m, m); t.done();
+    GMeas gm(y, P, R, fail);
+    GaussianLikelihood gl(scale);
+    MatrixXd states = MatrixXd::Zero(1, n);
+    bool valid; VectorXd lik;
+    LikelihoodModel& lm = gl;                       // public through the interface
+    std::tie(valid, lik) = lm.likelihood(gm, states);
+    Out o; o.s("ok").n(valid ? 1 : 0).n(lik.size());
+    for (long i = 0; i < lik.size(); ++i) o.d(lik(i));
+    return o.str();
+}
+
 int main() {
     return vh::run([](const std::string& op, Toks& t, std::string& out) {
         if (op == "u1") { out = op_u1(t); return true; }
         if (op == "rs") { out = op_rs(t); return true; }
         if (op == "rwp") { out = op_rwp(t); return true; }
         if (op == "sis") { out = op_sis(t); return true; }
+        if (op == "glik") { out = op_glik(t); return true; }
         return false;
     });
 }
